@@ -739,6 +739,10 @@ def run(ctx):
                     for s2 in (st.body if last else st.orelse):   # the arm this iteration takes (no else: nothing happens)
                         if isinstance(s2, ast.Assign) and isinstance(s2.targets[0], ast.Name):
                             env[s2.targets[0].id] = ev(s2.value, env, last)
+                        elif isinstance(s2, ast.AugAssign) and isinstance(s2.target, ast.Name) and isinstance(s2.op, (ast.Add, ast.Sub)) \
+                                and s2.target.id in env:
+                            d_ = ev(s2.value, env, last)
+                            env[s2.target.id] = env[s2.target.id] + d_ if isinstance(s2.op, ast.Add) else env[s2.target.id] - d_
                         else:
                             return None
                     continue
@@ -755,6 +759,9 @@ def run(ctx):
                         continue
                 elif isinstance(st, ast.Assign) and isinstance(st.targets[0], ast.Name):
                     env[st.targets[0].id] = ev(st.value, env, last)
+                elif isinstance(st, ast.AugAssign) and isinstance(st.target, ast.Name) and isinstance(st.op, (ast.Add, ast.Sub)) and st.target.id in env:
+                    d_ = ev(st.value, env, last)
+                    env[st.target.id] = env[st.target.id] + d_ if isinstance(st.op, ast.Add) else env[st.target.id] - d_
                 elif isinstance(st, (ast.If, ast.While, ast.Try)):
                     return None  # other control flow: not this idiom
             return val
